@@ -8,10 +8,10 @@ EX = "exploration"
 # id -> (level, design_ref, technique, level text, level note)
 CHECKS = {
  "C01": (EX, "DESIGN.md §3 C01", "runtime monitoring: real Adaptation + stub plugins, reference ownership ledger as oracle, race detector",
-         "Every generated request (systematic 29 kinds x paths x distances x patterns, plus random colliding responses, 1/4/16 requests in flight) is executed by the real adaptation with real stub plugins; an independent ownership ledger decides whether it had to fail. Held on the executions produced, not a proof.",
-         "Trusts the reference ledger (merge_model.go) as a transcription of the statement; unspecified cases (same plugin twice, claims on fields of a dropped update) are not asserted."),
+         "Every generated request (systematic 29 kinds x paths x distances x patterns incl. same-value and original-value collisions and decoy removals, the plain list once more with two plugin instances under one name, plus random colliding responses, 1/4/16 requests in flight) is executed by the real adaptation with real stub plugins; an independent ownership ledger decides whether it had to fail. Held on the executions produced, not a proof.",
+         "Trusts the reference ledger (merge_model.go) as a transcription of the statement (it interprets removal markers itself and calls no helper of the code under test); unspecified cases (same plugin twice, claims on fields of a dropped update) are not asserted."),
  "C02": (EX, "DESIGN.md §3 C02", "runtime monitoring: real Adaptation + stub plugins, reference ownership ledger as oracle, race detector",
-         "Conflict-free and removal-prefixed response sets (systematic and random, incl. fully pre-populated update requests) must succeed on the real adaptation; any error is a violation.",
+         "Conflict-free and removal-prefixed response sets (every ordered pair of different resource kinds on four paths, bare args removal, systematic removal patterns, random, incl. fully pre-populated update requests) must succeed on the real adaptation; any error is a violation.",
          "Trusts the reference ledger; sampling of inputs, not enumeration."),
  "C03": (EX, "DESIGN.md §3 C03", "runtime monitoring: differential execution of the project's generator on the combined vs the sequential adjustments, plus owner's-value oracle",
          "For every successful creation the combined adjustment returned by the real adaptation is applied with the project's generator and compared with applying each plugin's adjustment in turn; resource fields the generator does not carry are compared with the model owner's values.",
@@ -20,25 +20,25 @@ CHECKS = {
          "Every plugin's handler arguments (container on create, resources on update) are compared with the reference model after the earlier plugins; a no-op last plugin's view is compared with what the runtime obtains from the combined reply.",
          "Trusts the reference apply-adjustment model; nil vs empty collections are treated as equal."),
  "C05": (EX, "DESIGN.md §3 C05", "runtime monitoring: response Update lists vs reference per-target field model",
-         "Update lists of create/update/stop responses from the real adaptation are checked for one entry per target with exactly the owners' fields, own entry last, self-update failing, dropped ignore-failure updates leaking nothing.",
+         "Update lists of create/update/stop responses from the real adaptation are checked for one entry per target with exactly the owners' fields, own entry last, self-update failing, dropped ignore-failure updates (scalar, map and list fields) leaking nothing; for cases whose outcome is open (a plugin naming one item twice) only one-entry-per-target and no repeated page size are asserted.",
          "Flag value of a combined entry and blank entries for targets whose only updates were dropped are not asserted (unstated)."),
  "C06": (EX, "DESIGN.md §3 C06", "runtime monitoring: unique-id handler-invocation log and call/return log of a real Adaptation with stub plugins, offline exactly-once/order checkers, porcupine sequencer model, race detector, CPU-affinity sweeps",
-         "Plugins with enumerated/sampled subscription masks (all 8192 in the thorough tier), tied and distinct indices, registering before and during traffic, receive random sequences of the thirteen lifecycle calls from 1/4/16 concurrent callers; the logs are checked for exactly-once delivery to subscribed active plugins, index order, one common order, real-time order and own results.",
+         "Plugins with enumerated/sampled subscription masks (all 8192 in the thorough tier), tied and distinct indices, registering before and during traffic, receive random sequences of the thirteen lifecycle calls from 1/4/16 concurrent callers, with and (in a separate scenario with 60 registrations) without sync blocks, and after an idle period longer than the request timeout; the logs are checked for exactly-once delivery to subscribed active plugins, index order, one common order, real-time order and own results.",
          "Activity of a plugin for a request is decided from the sync-block ticket vs the plugin's Synchronize tick; equal-index order is not asserted."),
  "C07": (FE, "DESIGN.md §3 C07", "runtime monitoring with fault injection: raw protocol peers behind a harness-owned cut-wrapper inside a real Adaptation, enumerated fault kinds x positions x request types x byte offsets, result/latency/invocation-log oracles, hang rule with goroutine dumps, race detector, CPU-affinity sweeps",
-         "Every listed fault (peer close before/on/after, cut after k bytes of request or response, handler hang, malformed frames, unknown connection id, stalled 1 MiB request, flooding peer that stops reading, handler error) is injected at first/middle/last position for each request type, alone and in pairs, followed by two healthy requests; the request must complete in time with exactly the survivors' contributions, survivors invoked once, failed plugin dropped; handler errors must veto.",
+         "Every listed fault (peer close before/on/after, cut after k bytes of request or response, handler hang, malformed frames, unknown connection id, stalled 1 MiB request, flooding peer that stops reading, handler error from raw peers and, for all thirteen request kinds, from stub-based plugins) is injected at first/middle/last position for each request type, alone and in pairs, followed by two healthy requests; the request must complete in time with exactly the survivors' contributions, survivors invoked once, failed plugin dropped; handler errors must veto.",
          "Cuts of the runtime-to-plugin direction are applied at the peer's end of the real socket; multi-gigabyte length fields are not injected."),
  "C08": (EX, "DESIGN.md §3 C08", "runtime monitoring: exactly-once checker over snapshot/creation id logs, online monitor of held sync blocks vs running synchronisations, hook-widened race windows, race detector",
-         "Concurrent creators under sync blocks and plugins registering meanwhile; for every registered plugin and every container of the runtime's store, snapshot membership plus creation events must be exactly one; the sync callback must never run while a block is held; pending registrations must complete.",
+         "Concurrent creators under sync blocks and plugins registering meanwhile, in every fifth round against a store whose snapshot is split in two or three messages with one registration cut mid-snapshot and repeated; for every registered plugin and every container of the runtime's store, snapshot membership plus creation events must be exactly one; the sync callback must never run while a block is held; pending registrations must complete.",
          "The runtime side follows the documented sync-block contract; schedules are those produced by 1-16 CPUs, repetition and the hook yields."),
  "C09": (EX, "DESIGN.md §3 C09", "runtime monitoring: generated runtime states against a stub plugin (reassembled handler arguments) and a raw protocol peer (per-message chunk log), process-liveness supervision, race detector",
-         "States from empty to 20000 objects in many size distributions (boundary totals around the 4 MiB limit, skewed shapes forcing the minimum chunk) are synchronized by the real adaptation; objects <= 64 KiB must be delivered exactly once in order, larger ones may fail cleanly; panics, partial states, empty-chunk loops and hangs are violations; plus a re-registration history after an aborted split.",
-         "'individually transmissible' is taken as <= 64 KiB for the must-succeed tier."),
+         "States from empty to 20000 objects in many size distributions (boundary totals around the 4 MiB limit, skewed shapes forcing the minimum chunk) are synchronized by the real adaptation; states whose objects are <= 64 KiB or whose eight largest objects fit one message must be delivered exactly once in order, others may fail cleanly; panics, partial states, empty-chunk loops and hangs are violations; plus a re-registration history after an aborted split, pre-installed plugins synchronized at Start, and a plugin without a Synchronize handler.",
+         "'individually transmissible' is taken as: every object <= 64 KiB, or the eight largest objects fit one message (the implementation's documented minimum chunk)."),
  "C10": (EX, "DESIGN.md §3 C10", "runtime monitoring: stream parser + real-time-order monitor over recorded write/read histories of two real Mux endpoints, porcupine FIFO check on short histories, race detector, hook-widened interleavings",
-         "Concurrent writers and readers over K logical connections of two real multiplexer endpoints (socketpair and net.Pipe trunks, queue lengths 2-256, payloads from empty to several frames); each delivered stream is parsed for completeness, order, integrity and isolation; harness-side credit enforces 'receiver keeps up'.",
+         "Concurrent writers and readers over K logical connections of two real multiplexer endpoints (socketpair and net.Pipe trunks, queue lengths 2-256, payloads from empty to several frames); each delivered stream is parsed for completeness, order, integrity and isolation; harness-side credit enforces 'receiver keeps up'; handle scenarios cover concurrent Open, reopen, stale close, re-dial, traffic during open/close churn and late readers within queue lengths 1-1000.",
          "Readers pass a buffer of one full frame; connection ids are opened on both ends before traffic."),
  "C11": (FE, "DESIGN.md §3 C11", "runtime monitoring with fault injection: harness-owned cut-wrapper at every enumerated trunk byte offset, close/overflow schedules, prefix parser and hang rule with goroutine dumps, race detector",
-         "Fault points are enumerated for a fixed exchange (every byte offset in the thorough tier, all frame boundaries plus a stride in quick) and sampled for close timing/closer counts/overflow positions; oracles: prefix property, every blocked/later operation errors, EOF after orderly close, closers return.",
+         "Fault points are enumerated for a fixed exchange (every byte offset in the thorough tier, all frame boundaries plus a stride in quick) and sampled for close timing/closer counts/overflow positions, plus transient short writes at every offset, listener close races and connections obtained after a failure; oracles: prefix property, every blocked/later operation errors, EOF after orderly close, closers return.",
          "Completeness is not asserted for a close racing unread data; overflow is exercised on the buffering socketpair trunk only."),
  "C12": (EX, "DESIGN.md §3 C12", "runtime monitoring: descriptor-driven differential execution of the two generated codecs (cross-decode, round trips, size, presence)",
          "Every message type with the specialised codec (found through the registry at run time) is populated field by field and at random; both encoders' bytes are decoded by the other decoder and compared with proto.Equal plus an explicit presence walk; SizeVT is compared with the bytes written.",
@@ -50,23 +50,23 @@ CHECKS = {
          "Random specs x adjustments applied by the real generator 16/32 times each; result compared with a reference interpreter written from the statement, with itself across repetitions, and checked for parent-before-child mounts and an untouched remainder.",
          "Memory limit also setting swap is taken as intended (asserted by the repo's own suite); rshared/rslave propagation excluded (reads the host mount table)."),
  "C15": (EX, "DESIGN.md §3 C15", "runtime monitoring: plugin types generated and compiled at check time, driven by a scripted raw runtime; handler-invocation recorder and response comparison; race detector",
-         "One struct type per subset of the thirteen handler interfaces (all 8192 in the thorough tier) is generated, compiled and run against a raw protocol peer: subscription mask, configuration-time subsets and rejections, exactly-once dispatch of every event to exactly its handler with equal arguments, results and errors returned unchanged.",
+         "One struct type per subset of the thirteen handler interfaces (all 8192 in the thorough tier) is generated, compiled and run against a raw protocol peer: subscription mask, configuration-time subsets and rejections, exactly-once dispatch of every event to exactly its handler with equal arguments, results and errors returned unchanged; Synchronize in 1-4 messages, and after a connection lost mid-synchronization.",
          "The runtime end is a harness peer on the public multiplexer and generated ttRPC stubs; unimplemented events are only checked for the absence of stray invocations."),
  "C16": (FE, "DESIGN.md §3 C16", "runtime monitoring with fault injection: cut-wrapper on the stub's own connection at enumerated handshake byte offsets, Start/Stop/Wait/loss histories, hang rule with goroutine dumps, hook-delayed close notification, race detector",
-         "The handshake is cut at byte offsets in both directions (every offset in the thorough tier) and fixed plus random histories of Start, failing Start, Stop, Wait, connection loss are executed; every call must return, a later Start on a fresh connection must work and survive the earlier session's late notification, the close notification fires once per established session.",
+         "The handshake is cut at byte offsets in both directions (every offset in the thorough tier) and fixed plus random histories of Start, failing Start, Stop, Wait, connection loss are executed; every call must return, a later Start on a fresh connection must work and survive the earlier session's late notification, the close notification fires once per established session; a configuration result of a dead session must not satisfy the next Start.",
          "Whether OnClose also fires for a never-established attempt is not asserted; the first Start is bounded by the stub's built-in 5 s registration timeout."),
  "C17": (FE, "DESIGN.md §3 C17", "runtime monitoring with fault injection: raw protocol peers with enumerated names/indices/masks/stall points ahead of a real stub plugin through the real socket; activation observed at the peers; filesystem-mode and connect probes under several umasks; race detector",
-         "Every listed ill- or well-formed registration (names, index strings, all single mask bits valid and invalid, random masks, five stall points, up to four of them ahead of a good plugin) is executed against the real adaptation; a peer must be synchronized and receive events iff it is well-formed and timely, the good plugin must get through within the bound; directories NRI creates for the socket must be private under umask 000-077; no socket when external connections are disabled.",
+         "Every listed ill- or well-formed registration (names, index strings, all single mask bits valid and invalid, random masks, five stall points, up to four of them ahead of a good plugin) is executed against the real adaptation; a peer must be synchronized and receive events iff it is well-formed and timely, the good plugin must get through within the bound; directories NRI creates for the socket must be private under umask 000-077; no socket when external connections are disabled (either option order); a registration after the registration timeout (shorter than the request timeout) is not activated.",
          "Timeouts 800/500 ms via NRI's setters; at most three silent peers per case."),
  "C18": (FE, "DESIGN.md §3 C18", "runtime monitoring at process level: a probe plugin (real stub) launched by the real Adaptation reports its environment, arguments and descriptor table (raw system calls before any Go I/O), configuration and invocations; generated plugin directories incl. failing plugins; /proc process-state probes after drop and after Stop",
-         "Generated directory contents (executables, non-executables, subdirectories, drop-in pairs, failure-mode plugins) are served by a real Adaptation in a child process; what each launched process was given and what happened to it is observed from inside the probe and from the process table.",
+         "Generated directory contents (executables, non-executables, subdirectories, drop-in pairs, failure-mode plugins) are served by a real Adaptation in a child process; what each launched process was given and what happened to it (incl. probes that fail configuration or ignore SIGTERM) is observed from inside the probe and from the process table; the updates the probes return from Synchronize must all reach the runtime.",
          "Zombies of self-exited plugins are recorded only; unparseable executable names and wasm plugins are outside what is asserted."),
  "C19": (EX, "DESIGN.md §3 C19", "runtime monitoring: online mutual-exclusion counters in the update callback and lifecycle handlers, offline exactly-once/equality checker over unique update ids, porcupine sequencer model, race detector",
-         "Plugins issue unsolicited updates concurrently with each other and with lifecycle requests; the callback's overlap with itself and with any handler is counted online; arguments and results are compared by unique id offline.",
+         "Plugins issue unsolicited updates concurrently with each other and with lifecycle requests; the callback's overlap with itself and with any handler is counted online; arguments and results are compared by unique id offline; updates issued from the Configure and Synchronize handlers, during Start, with a dropped connection and with slow callbacks are separate scenarios.",
          "Overlap is observed at the callback and handler boundaries of one process; empty update lists carry no id and are not generated."),
  "C20": (EX, "DESIGN.md §3 C20", "runtime monitoring: the built sample plugins launched by a real Adaptation; annotation sets generated from structured values with a reference expectation; response comparison",
-         "Creation requests with generated pod annotations (all scope combinations, other containers' keys, prefix-related names, YAML/JSON, empty values, 64-bit boundary rlimits, ill-formed payloads) go through the real adaptation to the two built plugin binaries; the adjustment must be exactly what the most specific annotation describes, ill-formed ones must fail the request.",
-         "Keys within one annotation are unique (same-plugin duplicates are undefined in the adaptation)."),
+         "Creation requests with generated pod annotations (all scope combinations, other containers' keys, prefix-related names, YAML/JSON, empty values, 64-bit boundary rlimits, ill-formed payloads) go through the real adaptation to the two built plugin binaries; the adjustment must be exactly what the most specific annotation describes, ill-formed ones must fail the request; the ulimit adjuster is also driven alone by a raw runtime with one rlimit type named twice.",
+         "Through the adaptation, keys within one annotation are unique (same-plugin duplicates are undefined there); repeated rlimit types are decided at the plugin's own boundary."),
 }
 
 NOT_YET = {}
